@@ -169,6 +169,36 @@ def torch_run(requests, timeout=1200):
             return json.load(f)
 
 
+def find_model(E_, neg, tries=60, seed=12345):
+    """model of (path AND neg); when the solver answers `unknown` on a nonlinear query, try ground candidate assignments
+    (small random rationals for every free variable) and let the solver check each: only used to obtain a WITNESS of a
+    violation, never to conclude that an obligation holds"""
+    import random
+
+    import z3
+    from z3 import z3util
+
+    r = E_.check(neg)
+    if r == z3.sat:
+        return E_.model()
+    if r == z3.unsat:
+        return None
+    rng = random.Random(seed)
+    vs = [v for v in z3util.get_vars(neg) if z3.is_real(v) or z3.is_int(v)]
+    for _ in range(tries):
+        eqs = []
+        for v in vs:
+            if str(v) == "eps!":
+                continue
+            if z3.is_int(v):
+                eqs.append(v == rng.randint(0, 4))
+            else:
+                eqs.append(v == z3.RealVal(f"{rng.randint(-12, 12)}/4"))
+        if E_.check(neg, *eqs) == z3.sat:
+            return E_.model()
+    return None
+
+
 def frac_to_f32(x):
     """round an exact model value to the nearest float32 (what the real tensors will hold)"""
     import numpy as np
